@@ -5,7 +5,7 @@
     A column is an index function [nat -> F]; [K] is the number of layers,
     [b] the [K+1] boundaries, [ls] the table [log(centers)] (the only
     transcendental input). *)
-From Dino Require Import Base.Ops Base.Sums.
+From Dino Require Import Base.Ops Base.Sums Base.Ord.
 Local Open Scope F_scope.
 
 Section Sigma.
@@ -22,8 +22,6 @@ Section Sigma.
   (** [SigmaCoordinates.__init__]: np.isclose(a, t) with default tolerances is
       |a - t| <= atol + rtol*|t|; the two uses have t = 0 and t = 1. The
       tolerances are passed in ([tol0] = atol, [tol1] = atol + rtol). *)
-  Definition fabs (x : F) : F := if fleb 0 x then x else - x.
-  Definition fltb (x y : F) : bool := negb (fleb y x).
   Fixpoint all_increasing (n : nat) (b : nat -> F) : bool :=
     match n with O => true | S k => all_increasing k b && fltb (b k) (b (S k)) end.
   Definition sigma_accepts (tol0 tol1 : F) (K : nat) (b : nat -> F) : bool :=
@@ -75,8 +73,6 @@ Section Sigma.
     (- half) * (wp (S n) * dp (S n) + wp n * dp n).
 
   (** [upwind_vertical_advection]. *)
-  Definition fmax (x y : F) : F := if fleb x y then y else x.
-  Definition fmin (x y : F) : F := if fleb x y then x else y.
   Definition upwind_vertical_advection (K : nat) (b w x : nat -> F) (n : nat) : F :=
     let d := centered_difference b x in
     let w_up := fun k => if Nat.eqb k 0 then 0 else w (k - 1)%nat in
